@@ -22,6 +22,7 @@ import (
 	"context"
 	"fmt"
 	"runtime"
+	"strings"
 	"sync"
 	"sync/atomic"
 	"time"
@@ -444,6 +445,10 @@ func ChildMain(args []string) {
 	n := 0
 	fmt.Sscanf(args[2], "%d", &n)
 	if v := Run(args[0], args[1], n); v != nil {
+		if strings.Contains(v.Key, "no-quiescence") { // not a verdict: the snapshot never became stable
+			fmt.Printf("harness\t%s\t%s\n", v.Key, v.What)
+			return
+		}
 		fmt.Printf("violation\t%s\t%s\n", v.Key, v.What)
 		return
 	}
